@@ -176,7 +176,7 @@ def expr(n):
         f = expr(inner[0])
         if f == ('var', 'softHSMLog'):
             return ('call', f, [])      # log calls carry __LINE__/__FILE__: drop the arguments
-        return ('call', f, [expr(c) for c in inner[1:]])
+        return ('call', f, [refarg(c) for c in inner[1:]])
     if k == 'CXXOperatorCallExpr':
         # inner[0] is the operator function ref; operands follow
         f = expr(inner[0])
@@ -222,6 +222,17 @@ def expr(n):
     if k == 'ImplicitValueInitExpr':
         return ('int', 0)
     return ('opaque', str(k))
+
+
+def refarg(c):
+    """a call argument; a non-const variable handed over WITHOUT an lvalue-to-rvalue conversion binds to a non-const
+    reference parameter: the callee may assign it, so it is not an ordinary value argument"""
+    if c.get('kind') == 'DeclRefExpr' and c.get('valueCategory') == 'lvalue':
+        rd = c.get('referencedDecl', {})
+        t = (c.get('type') or {}).get('qualType', '')
+        if rd.get('kind') in ('VarDecl', 'ParmVarDecl') and not t.startswith('const ') and '(' not in t:
+            return ('refarg', rd.get('name', '?'))
+    return expr(c)
 
 
 # ------------------------------------------------------------------------------------------- stmt
